@@ -6,6 +6,7 @@
 //!   applyraw N T <2*len hex> <expr>  -> OK <raw buffer>   (register built over a raw buffer)
 //!   applyseq N J <count> <expr>*     -> OK <raw buffer>   (factors applied one after another)
 //!   probe N J <cnt> <idx...> <expr>  -> OK <amplitudes at the listed indices>
+//!   probet N J K <cnt> <idx...> <expr> -> the same on a register with K worker threads
 //!   singlec N IDX MASK <expr>        -> like matrix, for `SingleOp::c(MASK)` called on element IDX of the queue
 //! `REFUSED` when `.c()` returned None; panics are classified by main.
 
@@ -23,7 +24,8 @@ fn structure(o: &MultiOp) -> String {
 
 pub fn run(toks: &[&str]) -> String {
     let mut t = toks.iter().copied();
-    match t.next().unwrap() {
+    let kind = t.next().unwrap();
+    match kind {
         "matrix" => {
             let n = parse_n(t.next().unwrap());
             match parse(&mut t) {
@@ -117,15 +119,19 @@ pub fn run(toks: &[&str]) -> String {
             }
             format!("OK{}", fmt_c(r.verif_raw()))
         }
-        "probe" => {
+        "probe" | "probet" => {
             let n = parse_n(t.next().unwrap());
             let j = parse_n(t.next().unwrap());
+            let k = if kind == "probet" { parse_n(t.next().unwrap()) } else { 1 };
             let cnt = parse_n(t.next().unwrap());
             let idxs: Vec<usize> = (0..cnt).map(|_| parse_n(t.next().unwrap())).collect();
             match parse(&mut t) {
                 Built::Refused => "REFUSED".into(),
                 Built::Op(o) => {
                     let mut r = QReg::with_state(n, j);
+                    if k > 1 {
+                        r = match r.num_threads(k) { Some(r) => r, None => return "NOTHREADS".into() };
+                    }
                     r.apply(&o);
                     let raw = r.verif_raw();
                     let v: Vec<C> = idxs.iter().map(|&i| raw[i]).collect();
